@@ -45,6 +45,42 @@ pub const OP_NAMES: [&str; 37] = [
     "chacha8_4200", "blake256_2100", "blake512_4300", "groestl256_600", "jh256_300", "skein512_1100",
 ];
 pub const NOPS: u64 = 37;
+/// kinds 40..: one LONG single call of one concrete type on input that starts 1..15 bytes into its allocation; the length is the
+/// top twenty bits of the tag (only the "mix" workloads use them: every thread another variant of the same family)
+pub const MIX_NAMES: [&str; 28] = [
+    "jh224_long", "jh256_long", "jh384_long", "jh512_long", "groestl224_long", "groestl256_long", "groestl384_long", "groestl512_long", "blake224_long", "blake256_long",
+    "blake384_long", "blake512_long", "skein256_32_long", "skein512_64_long", "skein1024_128_long", "skein512_32_long", "skein1024_32_long", "skein1024_64_long",
+    "skein1024_16_long", "skein1024_48_long", "chacha20_long", "chacha8_long", "ietf_long", "xchacha20_long",
+    "skein1024_8_long", "skein512_16_long", "skein512_48_long", "skein512_8_long",
+];
+pub const MIX_FROM: u64 = 40;
+/// mix workloads: (kinds of the threads, bytes per call)
+pub const MIXES: [(&[u64], usize, usize); 11] = [
+    (&[40, 41, 42, 43], 1100, 1),
+    (&[44, 45, 46, 47], 1100, 1),
+    (&[48, 49, 50, 51], 2100, 1),
+    (&[52, 53, 54, 55, 56], 1100, 1),
+    (&[60, 61, 62, 63], 4200, 1),
+    // more output lengths of one state size than "a few": six Skein-1024 / Skein-512 configurations at once
+    (&[54, 56, 57, 58, 59, 54], 300, 1),
+    // thorough only (minutes of interpreter time each): two variants in 16 KiB calls
+    (&[41, 43], 16448, 1),
+    (&[45, 47], 16448, 1),
+    (&[49, 51], 16448, 1),
+    // "mix hammer": six / five output lengths of one Skein state size, eight short calls per thread (a per-process cache keyed by
+    // a parameter with fewer ways than there are values in use is recycled all the time, under the readers' feet)
+    (&[54, 56, 57, 58, 59, 64], 20, 8),
+    (&[53, 55, 65, 66, 67], 20, 8),
+];
+pub const NMIX: u64 = 11;
+
+fn op_name(k: u64) -> &'static str {
+    if k >= MIX_FROM {
+        MIX_NAMES[(k - MIX_FROM) as usize]
+    } else {
+        OP_NAMES[k as usize]
+    }
+}
 /// 2^8 - 10 (default) or 2^16 - 10 (argument): a narrow counter bumped once or twice per construction wraps within the next
 /// twenty constructions
 pub const WARMUP8: u64 = 246;
@@ -111,6 +147,50 @@ fn op(kind: u64, tag: u64) -> u64 {
         c.copy_from_slice(&splitmix(&mut s).to_le_bytes());
     }
     let n = 1 + (tag % 39) as usize;
+    if kind >= MIX_FROM {
+        let len = (tag >> 44) as usize;
+        let buf = long_msg(tag, len + 16);
+        let off = long_off(tag);
+        let m = &buf[off..off + len];
+        macro_rules! stream {
+            ($T:ty, $nl:expr) => {{
+                let mut c = <$T>::new(GenericArray::from_slice(&msg[..32]), GenericArray::from_slice(&msg[8..8 + $nl]));
+                let mut b = buf.clone();
+                c.apply_keystream(&mut b[off..off + len]);
+                fold(&b)
+            }};
+        }
+        return match kind - MIX_FROM {
+            0 => fold(&Jh224::digest(m)),
+            1 => fold(&Jh256::digest(m)),
+            2 => fold(&Jh384::digest(m)),
+            3 => fold(&Jh512::digest(m)),
+            4 => fold(&Groestl224::digest(m)),
+            5 => fold(&Groestl256::digest(m)),
+            6 => fold(&Groestl384::digest(m)),
+            7 => fold(&Groestl512::digest(m)),
+            8 => fold(&Blake224::digest(m)),
+            9 => fold(&Blake256::digest(m)),
+            10 => fold(&Blake384::digest(m)),
+            11 => fold(&Blake512::digest(m)),
+            12 => fold(&Skein256::<U32>::digest(m)),
+            13 => fold(&Skein512::<U64>::digest(m)),
+            14 => fold(&Skein1024::<U128>::digest(m)),
+            15 => fold(&Skein512::<U32>::digest(m)),
+            16 => fold(&Skein1024::<U32>::digest(m)),
+            17 => fold(&Skein1024::<U64>::digest(m)),
+            18 => fold(&Skein1024::<digest::generic_array::typenum::U16>::digest(m)),
+            19 => fold(&Skein1024::<digest::generic_array::typenum::U48>::digest(m)),
+            20 => stream!(ChaCha20, 8),
+            21 => stream!(ChaCha8, 8),
+            22 => stream!(Ietf, 12),
+            23 => stream!(XChaCha20, 24),
+            24 => fold(&Skein1024::<digest::generic_array::typenum::U8>::digest(m)),
+            25 => fold(&Skein512::<digest::generic_array::typenum::U16>::digest(m)),
+            26 => fold(&Skein512::<digest::generic_array::typenum::U48>::digest(m)),
+            _ => fold(&Skein512::<digest::generic_array::typenum::U8>::digest(m)),
+        };
+    }
     match kind {
         0 => fold(&Groestl256::digest(&msg[..n])),
         1 => fold(&Groestl512::digest(&msg[..n])),
@@ -232,6 +312,12 @@ fn op(kind: u64, tag: u64) -> u64 {
 /// workload `w`: (threads, per-thread op lists). Every thread's FIRST call is of the focus kind.
 fn workload(base: u64, w: u64) -> Vec<Vec<(u64, u64)>> {
     let mut s = base ^ w.wrapping_mul(0x1234_5678_9abc_def1);
+    if w >= 2 * NOPS + 62 {
+        // "mix" workloads: every thread makes one long call on ANOTHER variant of the same family (Jh224 | Jh256 | Jh384 | Jh512 ...):
+        // whatever the variants of a crate share per process (scratch areas, caches keyed by a parameter) is used by all at once
+        let (kinds, len, reps) = MIXES[((w - 2 * NOPS - 62) % NMIX) as usize];
+        return kinds.iter().map(|k| (0..reps).map(|_| (*k, ((len as u64) << 44) | (splitmix(&mut s) & ((1 << 44) - 1)))).collect()).collect();
+    }
     if w >= 2 * NOPS + 31 {
         // "wrap" workloads: the hammer below, after 246 (or 65526) constructions of the same type on the main thread (run mode does
         // them): a use counter narrower than the number of instances a process creates wraps during the hammer
@@ -475,7 +561,7 @@ fn main() {
         }
         "plan" => {
             for w in 0..nw {
-                let p: Vec<String> = workload(base, w).iter().map(|t| t.iter().map(|(k, tag)| format!("{}#{:x}", OP_NAMES[*k as usize], tag & 0xffff)).collect::<Vec<_>>().join(" ")).collect();
+                let p: Vec<String> = workload(base, w).iter().map(|t| t.iter().map(|(k, tag)| format!("{}#{:x}", op_name(*k), tag & 0xffff)).collect::<Vec<_>>().join(" ")).collect();
                 println!("workload {}: {}", w, p.join(" | "));
             }
         }
@@ -503,7 +589,7 @@ fn main() {
             let expected: Vec<u64> = explicit_exp.unwrap_or_else(|| table[w as usize].split(',').filter_map(|x| u64::from_str_radix(x, 16).ok()).collect());
             assert_eq!(expected.len(), plan.iter().map(|t| t.len()).sum::<usize>(), "expectations do not match the plan");
             let threads = plan.len();
-            println!("WORKLOAD {} threads={} first={}", w, threads, if w >= 2 * NOPS + 31 { format!("{}_x10_after_warmup", OP_NAMES[((w - 2 * NOPS - 31) % 31) as usize]) } else if w >= 2 * NOPS { format!("{}_x10", OP_NAMES[((w - 2 * NOPS) % 31) as usize]) } else { OP_NAMES[(w % NOPS) as usize].to_string() });
+            println!("WORKLOAD {} threads={} first={}", w, threads, if w >= 2 * NOPS + 62 { format!("mix_{}", op_name(plan[0][0].0)) } else if w >= 2 * NOPS + 31 { format!("{}_x10_after_warmup", OP_NAMES[((w - 2 * NOPS - 31) % 31) as usize]) } else if w >= 2 * NOPS { format!("{}_x10", OP_NAMES[((w - 2 * NOPS) % 31) as usize]) } else { OP_NAMES[(w % NOPS) as usize].to_string() });
             // "seq": the same threads, one after the other (each joined before the next starts): tells whether a failure
             // needs the threads to overlap at all
             let seq = a.get(6).map(|x| x == "seq").unwrap_or(false);
@@ -514,7 +600,7 @@ fn main() {
             let mismatches = Arc::new(AtomicU64::new(0));
             let first_bad = Arc::new(AtomicU64::new(u64::MAX));
             // global completion order of the calls (Relaxed: adds no happens-before edge): the visible trace of the schedule
-            if w >= 2 * NOPS + 31 {
+            if w >= 2 * NOPS + 31 && w < 2 * NOPS + 62 {
                 let kind = (w - 2 * NOPS - 31) % 31;
                 let mut acc = 0u64;
                 let n: u64 = a.get(8).and_then(|x| x.parse().ok()).unwrap_or(WARMUP8);
